@@ -12,6 +12,7 @@ import (
 	"testing"
 	"time"
 
+	"github.com/paulsonkoly/chess-3/chess"
 	"github.com/paulsonkoly/chess-3/search"
 	"github.com/paulsonkoly/chess-3/uci"
 
@@ -331,3 +332,190 @@ func TestRaceLeg(t *testing.T) {
 		fmt.Println(string(b))
 	}
 }
+
+// ---- C08 auxiliary leg: engines running truly in parallel -------------------
+
+// parRecorder records the lines of one engine (no agent, no hook).
+type parRecorder struct{ lines []string }
+
+func (r *parRecorder) Write(p []byte) (int, error) {
+	r.lines = append(r.lines, strings.TrimRight(string(p), "\n"))
+	return len(p), nil
+}
+
+type parResult struct {
+	score        int
+	move, ponder string
+	nodes        int
+	lines        []string
+}
+
+// parGame plays one scripted game on one engine and returns what every search
+// reported. noCounters: call Go the way the UCI driver does.
+func parGame(root Root, moves []string, reqs []Limits, tt int, noCounters bool, startGate <-chan struct{}) (out []parResult, err error) {
+	defer func() {
+		if r := recover(); r != nil {
+			err = fmt.Errorf("panic: %v", r)
+		}
+	}()
+	g := root.Game()
+	b, e := engineBoard(g)
+	if e != nil {
+		return nil, e
+	}
+	eng := search.New(tt)
+	if startGate != nil {
+		<-startGate
+	}
+	for i, lim := range reqs {
+		rec := &parRecorder{}
+		cnt := &search.Counters{}
+		opts := []search.Option{search.WithOutput(rec)}
+		if !noCounters {
+			opts = append(opts, search.WithCounters(cnt))
+		}
+		if lim.Depth > 0 {
+			opts = append(opts, search.WithDepth(chessDepth(lim.Depth)))
+		}
+		if lim.Nodes >= 0 {
+			opts = append(opts, search.WithNodes(lim.Nodes))
+		}
+		if lim.SoftNodes > 0 {
+			opts = append(opts, search.WithSoftNodes(lim.SoftNodes))
+		}
+		sc, mv, pm := eng.Go(b, opts...)
+		out = append(out, parResult{int(sc), mv.String(), pm.String(), cnt.Nodes, reportLines(rec.lines)})
+		if i < len(moves) {
+			m, err := ref.ParseMove(moves[i])
+			if err != nil || !g.Cur().IsLegal(m) {
+				break
+			}
+			g.Push(m)
+			b.MakeMove(toEngineMove(m))
+		}
+	}
+	return out, nil
+}
+
+// TestParallelLeg: K engines play the same scripted game at the same time on
+// real threads; each must report exactly what a single engine reports when it
+// plays the game alone. The oracle does not depend on the schedule, so the
+// leg cannot raise a false alarm; under -race it also lets the detector see
+// state shared between instances.
+func TestParallelLeg(t *testing.T) {
+	js := os.Getenv("VERIF_PAR_JOB")
+	if js == "" {
+		t.Skip("not a parallel-leg invocation")
+	}
+	var job RaceJob
+	if err := json.Unmarshal([]byte(js), &job); err != nil {
+		t.Fatal(err)
+	}
+	start := time.Now()
+	sum := RaceSummary{Type: "par-summary", Stats: map[string]int64{}}
+	for i := job.First; ; i++ {
+		if job.Sessions > 0 && i >= job.First+job.Sessions {
+			break
+		}
+		if job.BudgetS > 0 && time.Since(start).Seconds() > job.BudgetS {
+			break
+		}
+		rng := newRng(mixSeed(job.Seed, "C08-par", uint64(i)))
+		fmt.Fprintf(os.Stderr, "RACE-SESSION seed=%d index=%d\n", job.Seed, i)
+		root := genRoot(rng, pick(rng, []string{"bench", "start-play", "bench-play", "endgame", "shuffle2"}))
+		g := root.Game()
+		n := 3 + rng.IntN(6)
+		if rng.IntN(12) == 0 {
+			n = 258 + rng.IntN(10) // across a wrap of the table generation
+		}
+		var moves []string
+		var reqs []Limits
+		for k := 0; k < n; k++ {
+			lim := Limits{Nodes: -1}
+			switch rng.IntN(3) {
+			case 0:
+				lim.Depth = 1 + rng.IntN(5)
+			case 1:
+				lim.Nodes = pick(rng, []int{50, 500, 3000})
+			case 2:
+				lim.SoftNodes = pick(rng, []int{100, 1500})
+			}
+			if n > 100 {
+				lim = Limits{Nodes: -1, Depth: 1 + rng.IntN(2)}
+			}
+			reqs = append(reqs, lim)
+			l := g.Cur().Legal()
+			if len(l) == 0 {
+				break
+			}
+			m := pick(rng, l)
+			moves = append(moves, m.String())
+			g.Push(m)
+		}
+		tt := pick(rng, []int{32768, 1 << 20})
+		noCounters := rng.IntN(2) == 0
+		want, err := parGame(root, moves, reqs, tt, noCounters, nil)
+		if err != nil {
+			sum.Violations = append(sum.Violations, Violation{Property: "C08", Kind: "panic", Detail: "[parallel leg] reference game: " + err.Error()})
+			continue
+		}
+		k := 2 + rng.IntN(3)
+		gate := make(chan struct{})
+		got := make([][]parResult, k)
+		errs := make([]error, k)
+		var wg sync.WaitGroup
+		for e := 0; e < k; e++ {
+			wg.Add(1)
+			go func(e int) {
+				defer wg.Done()
+				got[e], errs[e] = parGame(root, moves, reqs, tt, noCounters, gate)
+			}(e)
+		}
+		close(gate)
+		wg.Wait()
+		sum.Sessions++
+		sum.Searches += len(want) * (k + 1)
+		sum.Stats["parallel_engines"] += int64(k)
+		for e := 0; e < k; e++ {
+			if errs[e] != nil {
+				sum.Violations = append(sum.Violations, Violation{Property: "C08", Kind: "panic", Detail: fmt.Sprintf("[parallel leg] engine %d: %v (seed=%d session=%d)", e, errs[e], job.Seed, i)})
+				continue
+			}
+			for si := range want {
+				if si >= len(got[e]) {
+					break
+				}
+				w, x := want[si], got[e][si]
+				diff := ""
+				switch {
+				case w.score != x.score || w.move != x.move || w.ponder != x.ponder:
+					diff = fmt.Sprintf("result (score %d, move %s, ponder %s) vs (score %d, move %s, ponder %s)", w.score, w.move, w.ponder, x.score, x.move, x.ponder)
+				case !noCounters && w.nodes != x.nodes:
+					diff = fmt.Sprintf("nodes %d vs %d", w.nodes, x.nodes)
+				case len(w.lines) != len(x.lines):
+					diff = fmt.Sprintf("%d vs %d reported lines", len(w.lines), len(x.lines))
+				default:
+					for li := range w.lines {
+						if lineKey(w.lines[li]) != lineKey(x.lines[li]) {
+							diff = fmt.Sprintf("line %d: %q vs %q", li, w.lines[li], x.lines[li])
+							break
+						}
+					}
+				}
+				if diff != "" {
+					sum.Violations = append(sum.Violations, Violation{Property: "C08", Kind: "parallel-mismatch", Step: si,
+						Detail: fmt.Sprintf("[parallel leg] engine %d of %d running at the same time differs from the same game played alone at search %d: %s (root %s, tt %d, seed=%d session=%d)", e, k, si, diff, root.FEN, tt, job.Seed, i)})
+					break
+				}
+			}
+		}
+	}
+	b, _ := json.Marshal(sum)
+	if p := os.Getenv("VERIF_OUT"); p != "" {
+		os.WriteFile(p, append(b, '\n'), 0o644)
+	} else {
+		fmt.Println(string(b))
+	}
+}
+
+func chessDepth(d int) chess.Depth { return chess.Depth(d) }
